@@ -487,7 +487,11 @@ def build():
         return o
 
     def cb_backend(interp):
-        k = interp.ctx.choose(5, "backend-arg")
+        # ... or None: the documented default of parallel_config / parallel_backend ("backend: str or ParallelBackendBase instance,
+        # default=None"; the error message speaks of "backend is not None") - the same as leaving it out
+        k = interp.ctx.choose(6, "backend-arg")
+        if k == 5:
+            return None
         if k == 4:
             b = mk_backend(interp, "ThreadingBackend", level=Opt(INT).fresh(interp.ctx, "blevel"))
             b.fields["supports_inner_max_num_threads"] = OneOf(False, True).fresh(interp.ctx, "simt")
@@ -504,13 +508,14 @@ def build():
         params=dict(self=cb_self, backend=cb_backend, inner_max_num_threads=OneOf(None, INT), backend_params=OneOf(PyDict({}), PyDict({"x": 1}))),
         ensures={
             "unset_stays_unset": "implies(is_default(backend, 'backend'), result is backend)",
+            "none_is_the_documented_spelling_of_unset": "implies(backend is None, is_default(result, 'backend'))",
             "name_gives_an_instance_of_that_backend": "implies(isinstance(backend, str), is_cls(result, cls_of(backend)))",
             "instance_is_kept": "implies(is_cls(backend, 'ThreadingBackend'), same_obj(result, backend))",
-            "nesting_level_inherited_when_unset": "implies(not is_default(backend, 'backend') and (isinstance(backend, str) or old(lvl(backend)) is None), "
+            "nesting_level_inherited_when_unset": "implies(not is_default(backend, 'backend') and backend is not None and (isinstance(backend, str) or old(lvl(backend)) is None), "
                                                   "result.nesting_level == parent_level(self))",
             "explicit_nesting_level_kept": "implies(is_cls(backend, 'ThreadingBackend') and old(lvl(backend)) is not None, result.nesting_level == old(lvl(backend)))",
         },
-        exsures={"ValueError": {"documented": "backend == 'nosuch' or (is_default(backend, 'backend') and (inner_max_num_threads is not None or len(backend_params) > 0)) "
+        exsures={"ValueError": {"documented": "backend == 'nosuch' or ((is_default(backend, 'backend') or backend is None) and (inner_max_num_threads is not None or len(backend_params) > 0)) "
                                               "or (is_cls(backend, 'ThreadingBackend') and len(backend_params) > 0)"},
                  "AssertionError": {"inner_threads_unsupported": "inner_max_num_threads is not None"},
                  "TypeError": {"backend_ctor_rejects_params": "len(backend_params) > 0"}},
